@@ -458,6 +458,29 @@ func init() {
 		sig := ex.info().TypeOf(c.Fun).(*types.Signature)
 		return []Value{scalarV(sig.Results().At(0).Type(), st.newRef())}
 	})
+	connState := func(ex *Exec, st *State, c *ast.CallExpr, r *Value, a []Value) []Value {
+		t := ex.info().TypeOf(c)
+		v := freshValue("connstate", t)
+		st.assumeValid(v)
+		for p, l := range v.L {
+			if p == ".HandshakeComplete" || p == ".TLS.HandshakeComplete" {
+				st.assume(mkImplies(tlsDone(st), l))
+			}
+		}
+		return []Value{v}
+	}
+	reg("(*crypto/tls.Conn).ConnectionState", "arbitrary state; HandshakeComplete holds once the handshake of the connection at hand has completed (ghost tlsdone())", connState)
+	reg("(*github.com/quic-go/quic-go.Conn).ConnectionState", "arbitrary state; TLS.HandshakeComplete holds once the handshake has completed (ghost tlsdone())", connState)
+	reg("(github.com/quic-go/quic-go.Connection).ConnectionState", "arbitrary state; TLS.HandshakeComplete holds once the handshake has completed (ghost tlsdone())", connState)
+	reg("crypto/tls.DialWithDialer", "returns an error, or a non-nil connection whose handshake has completed (ghost tlsdone())", func(ex *Exec, st *State, c *ast.CallExpr, r *Value, a []Value) []Value {
+		sig := ex.info().TypeOf(c.Fun).(*types.Signature)
+		err := freshVar("err", sortRef)
+		st.assume(mkCmp("le", mathC(0), err))
+		ok := mkEq(err, mathC(0))
+		ref := st.newRef()
+		tlsSetDone(st, ok)
+		return []Value{scalarV(sig.Results().At(0).Type(), mkIte(ok, ref, mathC(0))), scalarV(ex.vc.errT, err)}
+	})
 	reg("(*crypto/tls.ConnectionState).ExportKeyingMaterial", "returns an error, or a fresh slice of exactly the requested length with arbitrary contents (RFC 5705 exporter; the key material itself and its equality on both sides are not modelled)", func(ex *Exec, st *State, c *ast.CallExpr, r *Value, a []Value) []Value {
 		n := a[2].scalar()
 		err := freshVar("err", sortRef)
@@ -575,9 +598,11 @@ func init() {
 			}
 			e := freshValue("readerr", ex.vc.errT)
 			st.assumeValid(e)
+			tlsSetDone(st, mkEq(e.scalar(), mkInt(sortRef, 0)))
 			return []Value{e}
 		})
 		mb.writes = func(call *ast.CallExpr, info *types.Info, w *writes) {
+			w.bools["tls.hs"] = true
 			if len(call.Args) == 3 {
 				if u, ok := ast.Unparen(call.Args[2]).(*ast.UnaryExpr); ok && u.Op == token.AND {
 					t := info.TypeOf(u.X)
@@ -602,9 +627,11 @@ func init() {
 			st.assumeValid(e)
 			st.ghost["io.lastn"] = n
 			st.ghost["io.lastwant"] = scalarV(types.Typ[types.Int], p.L[".len"])
+			tlsSetDone(st, mkCmp("lt", mkInt(sortInt, 0), n.scalar()))
 			return []Value{n, e}
 		})
 		br.writes = func(call *ast.CallExpr, info *types.Info, w *writes) {
+			w.bools["tls.hs"] = true
 			w.fams["R|"+typeKey(types.Typ[types.Byte])+"|"] = true
 			w.ints["io.lastn"] = true
 			w.ints["io.lastwant"] = true
@@ -623,6 +650,7 @@ func init() {
 			st.assume(mkImplies(mkEq(e.scalar(), mkInt(sortRef, 0)), mkEq(n.scalar(), p.L[".len"])))
 			st.ghost["io.lastn"] = n
 			st.ghost["io.lastwant"] = scalarV(types.Typ[types.Int], p.L[".len"])
+			tlsSetDone(st, mkCmp("lt", mkInt(sortInt, 0), n.scalar()))
 			return []Value{n, e}
 		})
 		rf.writes = br.writes
@@ -1012,4 +1040,21 @@ func globalFactsFor(ts []*Term) []*Term {
 		}
 	}
 	return out
+}
+
+// Ghost "tls.hs": the TLS handshake of the connection at hand has completed. Arbitrary at function entry; a successful
+// read of at least one byte from the stream or a successful dial makes it true; (*tls.Conn).ConnectionState reports
+// HandshakeComplete accordingly. (crypto/tls: ExportKeyingMaterial on a state taken before the handshake completed
+// calls a nil exporter function.)
+func tlsDone(st *State) *Term {
+	g, ok := st.ghost["tls.hs"]
+	if !ok {
+		g = namedValue("G|tls.hs", types.Typ[types.Bool])
+		st.ghost["tls.hs"] = g
+	}
+	return g.scalar()
+}
+
+func tlsSetDone(st *State, when *Term) {
+	st.ghost["tls.hs"] = boolV(mkOr(tlsDone(st), when))
 }
